@@ -33,7 +33,8 @@ import Reduino.GenOb.Ops
   Text (W13): `Val.str` / `Ty.string` (the Arduino `String`), string literals of printable ASCII (emitted through
   `_escape_string_literal`, `Esc.escape`), string-typed names (global `String` declarations, default `""`, assignment, tuple assignment,
   promotion), conditional expressions over strings, `str(e)` of an int- or string-typed expression (`String(e)`), `+` on two strings
-  (a literal left operand is emitted as `String("…")`; `s += e`), and `mon.write` of a string-typed expression; a serial line (`Ev.write`) now carries
+  (a literal left operand is emitted as `String("…")`; `s += e`), f-strings as the fold of `+` the emitter makes of them, and
+  `mon.write` of a string-typed expression; a serial line (`Ev.write`) now carries
   the printed TEXT, an int printing in decimal on both sides (`toString`, `Val.text`; bools stay out of `write`).  Python's TypeErrors
   (`"a" + 1`, `-"a"`, `"a" < 1`, `range("a")`, `sleep("a")`) are `Err.typeError`; `Expr.wt` keeps strings out of conditions, counts,
   arithmetic and comparisons (the theorems' statements are textually unchanged; the store relation of `expr_preserved` says `Ty.holds`).
@@ -330,6 +331,20 @@ example :
         c.loop.lines = ["s = (s + \"!\");", "n = (n + 1);", "Serial.println(((s + String((n * 2))) + \";\"));"]) := by
   intro p
   exact ⟨by decide +kernel, by rfl, _, rfl, by rfl, by decide +kernel, by decide +kernel⟩
+
+/-- non-vacuity (W13, increment 3): f-strings.  `_to_c_expr` turns a `JoinedStr` with formatted values into the left fold of `+` over
+    its parts, a formatted value `{e}` becoming `String(e)` and the first part, when it is literal text, `String("…")`; an f-string
+    without formatted values is a plain literal.  That fold is an expression of the fragment (`toStr`, `+`, literals): the generator
+    prints `f"n={n} s={s}!"` and sends the model the tree below; T compares the rendered line with the emitted one, S_py the value
+    with CPython's `format(v, "")` -/
+example :
+    let fs : Expr := .bin .add (.bin .add (.bin .add (.bin .add (.str "n=") (.toStr (.var "n"))) (.str " s=")) (.toStr (.var "s"))) (.str "!")
+    let p : Prog := { pre := .seq (.assign "n" (.int 3)) (.seq (.assign "s" (.str "ab")) (.seq (.assign "w" fs) (.write (.var "w")))), body := none }
+    InF p = true ∧ Py.run p 0 50 = .ok [.write "n=3 s=ab!"] ∧
+      (∃ c, tr p = .ok c ∧ C.run c 0 50 = .ok [.write "n=3 s=ab!"] ∧
+        c.setup.lines = ["w = ((((String(\"n=\") + String(n)) + \" s=\") + String(s)) + \"!\");", "Serial.println(w);"]) := by
+  intro fs p
+  exact ⟨by decide +kernel, by rfl, _, rfl, by rfl, by decide +kernel⟩
 
 /-- `("a" if c else "b") + "c"` is emitted as `((c ? "a" : "b") + "c")`, a sum of two `const char*`, which no C++ compiler accepts:
     outside the fragment (`Expr.binTyOk`); with a `String` on the right it is inside -/
